@@ -180,8 +180,12 @@ def feval(e, env):
         return math.pow(feval(e[1], env), feval(e[2], env))    # always a REAL power (what the translation to pow() assumes)
     if k == "call":
         a = [float(feval(x, env)) for x in e[2]]
-        f = {"dexp": "exp", "dsqrt": "sqrt", "dlog": "log", "dlog10": "log10", "dabs": "abs"}.get(e[1], e[1])
-        return {"exp": math.exp, "sqrt": math.sqrt, "log": math.log, "log10": math.log10, "abs": abs}[f](*a)
+        f = {"dexp": "exp", "dsqrt": "sqrt", "dlog": "log", "dlog10": "log10", "dabs": "abs", "dnint": "nint", "dmod": "mod",
+             "dsign": "sign", "dmax1": "max", "dmin1": "min"}.get(e[1], e[1])
+        # Fortran's generic intrinsics: NINT rounds halves away from zero, MOD truncates, SIGN(a, b) = |a| with the sign of b
+        return {"exp": math.exp, "sqrt": math.sqrt, "log": math.log, "log10": math.log10, "abs": abs,
+                "nint": lambda x: math.floor(abs(x) + 0.5) * (1 if x >= 0 else -1), "max": max, "min": min, "mod": math.fmod,
+                "sign": lambda x, y: abs(x) if y >= 0 else -abs(x)}[f](*a)
     if k == "bin":
         l, r = feval(e[2], env), feval(e[3], env)
         if e[1] == "/":
@@ -320,7 +324,10 @@ def run(argv):
              "4.0d-10*(T32**user_x+0.25+nH*invT)", "4.0d-10*(T32**user_x + 0.25 + nH*invT)", "Tgas**user_x-1-1", "Tgas**user_x - 1 - 1",
              "Tgas**user_x-1.5d0+Te", "T32**sqrt(Te)+0.5+Te", "T32**Te2x+2+Tgas", "Te**user_x-0.5*Tgas-2.0",
              # the double-precision specific names of the supported intrinsics
-             "1d-10*dsqrt(Tgas)", "dlog(Tgas)+dlog10(Te)*2d0", "dabs(Tgas-3d2)*dexp(-1d0/Te)", "user_dexp*dsqrt(T32)"]
+             "1d-10*dsqrt(Tgas)", "dlog(Tgas)+dlog10(Te)*2d0", "dabs(Tgas-3d2)*dexp(-1d0/Te)", "user_dexp*dsqrt(T32)",
+             # generic intrinsics that C knows under another name (or not at all): whatever is emitted has the Fortran value
+             "1d-10*nint(Tgas/1d2)", "nint(Tgas/1d2-2d0)*Te", "max(Tgas,1d2)*1d-3", "min(Tgas,3d2)+1d0", "mod(Tgas,7d0)*2d0",
+             "sign(2d0,Tgas-3d2)*Te"]
     n_fixed = len(exprs)
     for f in [REPO / "tests/data/primordial.krome", REPO / "naunet/examples/primordial/primordial.krome",
               REPO / "naunet/examples/deuterium/deuterium.krome", REPO / "tests/data/minimal.krome"]:
@@ -400,8 +407,10 @@ def run(argv):
             chk.violation({"kind": "abundance-ref", "names": wrong, "lands_on_other_species": silent},
                           f"n(idx_X) references {wrong} become y[IDX_{names_c}] instead of the species' abundance variables {want_c}", input=case)
             continue
-        for _ in range(3):
+        for trial in range(3):
             env = valuation(rng)
+            if trial == 0 and "nint" in fx:
+                env["Tgas"] = 250.0          # an argument exactly between two integers (NINT(2.5) = 3)
             try:
                 fv = feval(ftree, env)
             except (ValueError, OverflowError, ZeroDivisionError):
